@@ -139,6 +139,16 @@ CHECKS = {
   "note": COMMON_NOTE + "Goroutine-level termination of each Stop() is observed (watchdog + goroutine dump), not proved; the model decides only "
           "which paths a configuration makes reachable. WARC finalisation is the library's contract, validated by read-back.",
  },
+ "C19": {
+  "text": "Theorems over models of the extractors on parsed documents: every string value of a JSON document reached by any path, and "
+          "every URL of JSON embedded in a string, is discovered, and only URLs are; every discovered URL lands in exactly one class by "
+          "the file-extension rule (fragment / query irrelevant); XML attribute values and text nodes; every segment, variant and "
+          "alternative URI of a playlist; the marker walk queues exactly the non-empty objects and ends; the list-type=2 walk over a "
+          "folder tree queues every non-empty object at any depth, also from pages that carry common prefixes (the old shape is shown "
+          "to lose objects). Generated documents with planted URLs and buckets walked request by request against a reference S3 server "
+          "go through the real body processing and extractor dispatch; JSON decisions and S3 pages are also compared with the model.",
+  "note": COMMON_NOTE + "The parsers and the URL pattern are oracles; the S3 service is modelled by its documented contract.",
+ },
  "C05": {
   "text": "Theorem over the stage model for every seed tree, configuration, normaliser and seen-store: each node preprocess attaches a "
           "request to (seed, redirect target or asset) was accepted by the URL normaliser and passes the include / exclude / regex "
